@@ -95,6 +95,49 @@ class OpaqueStr:
         return "OpaqueStr(%s)" % self.what
 
 
+class UTerm:
+    """uninterpreted application of a library function to (possibly symbolic) arguments: the
+    abstraction of text processing the engine does not look into (regex engine, str methods).
+    Two UTerms are known equal when they are structurally identical (same function, same args)."""
+
+    SORTS = {"re.findall": "list", "re.split": "list", "regex.split": "list", "str.split": "list",
+             "list": "list", "sorted": "list", "set": "set", "comp": "list", "str.join": "str",
+             "re.sub": "str", "str.strip": "str", "str.replace": "str", "str.lower": "str", "elem": "str",
+             "preprocess": "str", "labels": "list", "input": "str"}
+
+    def __init__(self, fn, args, sort=None):
+        self.fn = fn
+        self.args = tuple(args)
+        self.sort = sort or self.SORTS.get(fn, "any")
+
+    def key(self):
+        def k(x):
+            if isinstance(x, UTerm):
+                return x.key()
+            if isinstance(x, (list, tuple)):
+                return tuple(k(y) for y in x)
+            if hasattr(x, "sexpr"):
+                return ("z3", x.sexpr())
+            return ("py", type(x).__name__, repr(x))
+        return (self.fn,) + tuple(k(a) for a in self.args)
+
+    def same(self, other):
+        return isinstance(other, UTerm) and self.key() == other.key()
+
+    def __repr__(self):
+        return "%s(%s)" % (self.fn, ", ".join(repr(a) for a in self.args))
+
+
+class Tok:
+    """an opaque value that is only passed around (identity matters, content does not)"""
+
+    def __init__(self, name):
+        self.name = name
+
+    def __repr__(self):
+        return "Tok(%s)" % self.name
+
+
 class EnumMember:
     def __init__(self, cls, name, value):
         self.cls = cls      # ClassVal
